@@ -11,24 +11,39 @@ package standard
 //@ ensures [found] result1 == nil ==> account in s.generations && result0 == s.generations[account] && old(account in s.generations) && result0 == old(s.generations[account])
 //@ ensures [notfound] result1 != nil ==> result1 == ErrNotFound && result0 == nil && !(account in s.generations)
 //@ ensures [absent] !old(account in s.generations) ==> result1 != nil
+//@ ensures [active] old(account in s.generations) && since(old(s.generations[account]).processStarted) <= s.generationTimeout ==> result1 == nil
+//@ ensures [expired] old(account in s.generations) && since(old(s.generations[account]).processStarted) > s.generationTimeout ==> result1 != nil
 //@ ensures [others] forall a string :: a != account ==> ((a in s.generations) <==> old(a in s.generations)) && s.generations[a] == old(s.generations[a])
 
 //@ func (*Service).contribution
-//@ requires generation != nil
+//@ requires generation != nil && generation.sharedSecrets != nil && generation.sharedVVecs != nil
 //@ modifies generation.distributionSecrets, mapall(generation.sharedSecrets), mapall(generation.sharedVVecs)
 //@ ensures [ownvec] result == nil ==> generation.id in generation.sharedVVecs && len(generation.sharedVVecs[generation.id]) == generation.threshold && generation.id in generation.sharedSecrets
+//@ ensures [fresh] result == nil ==> fresh(generation.distributionSecrets) && generation.distributionSecrets != nil
+//@ ensures [failed] result != nil ==> generation.distributionSecrets == old(generation.distributionSecrets) && (forall k uint64 :: ((k in generation.sharedVVecs) <==> old(k in generation.sharedVVecs)) && generation.sharedVVecs[k] == old(generation.sharedVVecs[k]))
 //@ ensures [onlyown] forall k uint64 :: k != generation.id ==> ((k in generation.sharedVVecs) <==> old(k in generation.sharedVVecs)) && generation.sharedVVecs[k] == old(generation.sharedVVecs[k]) && ((k in generation.sharedSecrets) <==> old(k in generation.sharedSecrets))
 
 //@ func (*Service).OnPrepare
 //@ requires s != nil && s.generations != nil
+//@ requires [tableinv] tableInv(s)
 //@ modifies s.generations[account]
+//@ ensures [table-each] tableEach(s)
+//@ ensures [table-sep] tableSep(s)
+//@ hint-after getGeneration@1 [oldptr] forall a string :: a in s.generations ==> !fresh(s.generations[a]) && s.generations[a] == old(s.generations[a]) && old(a in s.generations)
+//@ hint-after getGeneration@1 [oldinv] forall a string :: a in s.generations ==> genInv(s.generations[a])
+//@ hint-after getGeneration@1 [oldmaps] forall a string :: a in s.generations ==> !fresh(s.generations[a].sharedSecrets) && !fresh(s.generations[a].sharedVVecs) && !fresh(s.generations[a].distributionSecrets)
+//@ hint-after contribution@1 [oldkept] forall a string :: a != account ==> ((a in s.generations) <==> old(a in s.generations)) && s.generations[a] == old(s.generations[a]) && (a in s.generations ==> !fresh(s.generations[a]) && !fresh(s.generations[a].sharedSecrets) && !fresh(s.generations[a].sharedVVecs) && !fresh(s.generations[a].distributionSecrets) && genInv(s.generations[a]))
+//@ hint-after contribution@1 [newgen] account in s.generations && genInv(s.generations[account]) && fresh(s.generations[account]) && fresh(s.generations[account].sharedSecrets) && fresh(s.generations[account].sharedVVecs)
 //@ ensures [inprogress] result == ErrInProgress ==> old(account in s.generations) && (account in s.generations) && s.generations[account] == old(s.generations[account])
+//@ ensures [refused] old(account in s.generations) && since(old(s.generations[account]).processStarted) <= s.generationTimeout && len(s.generationPassphrase) != 0 ==> result == ErrInProgress
 //@ ensures [created] result == nil ==> account in s.generations && fresh(s.generations[account]) && s.generations[account].account == account && s.generations[account].threshold == threshold && s.generations[account].participants == participants
 //@ ensures [others] forall a string :: a != account ==> ((a in s.generations) <==> old(a in s.generations)) && s.generations[a] == old(s.generations[a])
 
 //@ func (*Service).OnAbort
 //@ requires s != nil && s.generations != nil
+//@ requires [tableinv] tableInv(s)
 //@ modifies s.generations[account]
+//@ ensures [tableinv] tableInv(s)
 //@ ensures [gone] result == nil ==> !(account in s.generations)
 //@ ensures [refused] !old(account in s.generations) ==> result == ErrNotInProgress
 //@ ensures [others] forall a string :: a != account ==> ((a in s.generations) <==> old(a in s.generations)) && s.generations[a] == old(s.generations[a])
@@ -37,7 +52,9 @@ package standard
 
 //@ spec gv(id int, share int, vvec []bls.PublicKey) bool
 //@ spec genInv(g *generation) bool = g != nil && g.sharedSecrets != nil && g.sharedVVecs != nil && g.distributionSecrets != g.sharedSecrets && (forall id uint64 :: id in g.sharedVVecs ==> len(g.sharedVVecs[id]) == g.threshold)
-//@ spec tableInv(s *Service) bool = (forall a string :: a in s.generations ==> genInv(s.generations[a])) && (forall a string, b string :: a != b && a in s.generations && b in s.generations ==> s.generations[a] != s.generations[b] && s.generations[a].sharedVVecs != s.generations[b].sharedVVecs && s.generations[a].sharedSecrets != s.generations[b].sharedSecrets && s.generations[a].sharedSecrets != s.generations[b].distributionSecrets)
+//@ spec tableEach(s *Service) bool = forall a string :: a in s.generations ==> genInv(s.generations[a])
+//@ spec tableSep(s *Service) bool = forall a string, b string :: a != b && a in s.generations && b in s.generations ==> s.generations[a] != s.generations[b] && s.generations[a].sharedVVecs != s.generations[b].sharedVVecs && s.generations[a].sharedSecrets != s.generations[b].sharedSecrets && s.generations[a].sharedSecrets != s.generations[b].distributionSecrets
+//@ spec tableInv(s *Service) bool = tableEach(s) && tableSep(s)
 
 //@ func verifyContribution
 //@ ensures [verified] result ==> gv(id, secretShare, vVec)
@@ -67,3 +84,42 @@ package standard
 //@ func (*Service).OnGenerate
 //@ requires s != nil
 //@ ensures [threshold] result2 == nil ==> numParticipants >= 1 && signingThreshold <= numParticipants && 2 * signingThreshold > numParticipants
+
+//@ func (*Service).OnExecute
+//@ requires s != nil && s.generations != nil
+//@ requires [tableinv] tableInv(s)
+//@ modifies s.generations[account], mapall(s.generations[account].sharedSecrets), mapall(s.generations[account].sharedVVecs)
+//@ ensures [tableinv] tableInv(s)
+//@ ensures [notinprogress] !old(account in s.generations) ==> result == ErrNotInProgress
+//@ ensures [others] forall a string :: a != account ==> ((a in s.generations) <==> old(a in s.generations)) && s.generations[a] == old(s.generations[a])
+//@ hint-after getGeneration@1 [ginv] result1 == nil ==> genInv(result0)
+//@ loop #1
+//@ invariant [table] tableInv(s) && generation != nil && account in s.generations && s.generations[account] == generation
+//@ invariant [gens] forall a string :: ((a in s.generations) <==> old(a in s.generations) || a == account) && (a != account ==> s.generations[a] == old(s.generations[a]))
+//@ invariant [framesec] forall m map[uint64]bls.SecretKey, k uint64 :: !fresh(m) && m != generation.sharedSecrets ==> ((k in m) <==> old(k in m)) && m[k] == old(m[k])
+//@ invariant [framevec] forall m map[uint64][]bls.PublicKey, k uint64 :: !fresh(m) && m != generation.sharedVVecs ==> ((k in m) <==> old(k in m)) && m[k] == old(m[k])
+
+//@ func (*Service).storeDistributedKey
+//@ requires s != nil
+
+//@ func (*Service).OnCommit
+//@ requires s != nil && s.generations != nil
+//@ requires [tableinv] tableInv(s)
+//@ modifies s.generations[account]
+//@ ensures [table-each] tableEach(s)
+//@ ensures [table-sep] tableSep(s)
+//@ ensures [notinprogress] !old(account in s.generations) ==> result2 == ErrNotInProgress
+//@ ensures [deleted] result2 == nil ==> !(account in s.generations) && old(account in s.generations)
+//@ ensures [counts] result2 == nil ==> len(old(s.generations[account]).sharedSecrets) == len(old(s.generations[account]).participants) && len(old(s.generations[account]).sharedVVecs) == len(old(s.generations[account]).participants)
+//@ ensures [others] forall a string :: a != account ==> ((a in s.generations) <==> old(a in s.generations)) && s.generations[a] == old(s.generations[a])
+//@ hint-after getGeneration@1 [oldinv] forall a string :: a in s.generations ==> genInv(s.generations[a]) && s.generations[a] == old(s.generations[a]) && old(a in s.generations)
+//@ loop #1
+//@ invariant [fresh] fresh(contributedParticipants) && unchangedElems("uint64")
+//@ loop #2
+//@ invariant [range] 0 <= _n && _n <= len(generation.participants) && len(allParticipants) == len(generation.participants)
+//@ loop #3
+//@ invariant true
+//@ loop #4
+//@ invariant [agg] len(aggregateVVec) == generation.threshold && fresh(aggregateVVec)
+//@ loop #5
+//@ invariant [range] 0 <= _n && _n <= len(sharedVVec) && len(aggregateVVec) == generation.threshold && fresh(aggregateVVec)
